@@ -552,6 +552,53 @@ def prefix_probes(pos: int):
             yield {"k": "d", "cls": "damaged", "src": 0, "base": base, "trunc": cut}
 
 
+_TLV_LIKE = ["83040001", "04010211", "01008304", "11000300", "09800000", "32420001"]
+
+
+def _valid_utf16(b: bytes) -> bool:
+    try:
+        b.decode("utf-16-le")
+        return len(b) % 2 == 0
+    except UnicodeDecodeError:
+        return False
+
+
+def collision_probes(pos: int, strict_only: bool = False):
+    """Free octets of one datagram that look like the framing of another: (ci, op) pairs.
+    Well-formed (judged strictly): option data equal to the first octets of every class datagram / to option TLV headers / to an HDAP
+    header, one-octet options whose value is a TLV command or the magic, RRS radio addresses and TMP texts / addresses made of such
+    octets.  Judged by upper bounds ('damaged'): each class header (+ options) followed by the complete datagram of every class as
+    its payload, and the option area replaced by the complete datagram of every class."""
+    grams = [build(exh_op(ci, pos)) for ci in range(len(CLASSES))]
+    heads = sorted({g[:4].ljust(4, b"\x00").hex() for g in grams} | set(_TLV_LIKE))
+    opt_lists = [[[3, h]] for h in heads] + [[[3, "0001869f"], [4, "83"]], [[4, "04"], [3, "04010201"]], [[1, ""], [5, "01"], [6, "03"]], [[7, "32"], [4, "11"]],
+                                            [[4, "84"], [4, "01"], [3, "32420005"]]]
+    for ci, cls in enumerate(CLASSES):
+        if cls in ("heartbeat", "damaged"):
+            continue
+        base = exh_op(ci, pos)
+        for ol in opt_lists:
+            yield ci, dict(base, opts=ol)
+        if cls in RRS_OPCODE:
+            for h in _TLV_LIKE:
+                yield ci, dict(base, radio=h)
+        if cls == "data_other":
+            for g in grams:
+                text = g if len(g) % 2 == 0 else g + b"\x00"
+                if _valid_utf16(text):
+                    yield ci, dict(base, pl={"tmp_raw": {"group": False, "rid": 0x32420005, "dst": "32420005", "src": "83040001", "text_hex": text.hex()}})
+        if strict_only:
+            continue
+        # upper bounds only: another datagram as payload / in place of the options
+        sn = base.get("sn", 0)
+        for g in grams:
+            for ol in ([], [[3, "0001869f"], [4, "02"]]):
+                raw = R.enc_hstrp(TYPE_BITS[cls], sn, [(c, bytes.fromhex(h)) for c, h in ol], g)
+                yield len(CLASSES) - 1, {"k": "d", "cls": "damaged", "src": 0, "raw": raw.hex()}
+            raw = R.MAGIC + bytes([0, TYPE_BITS[cls] | R.OPT, sn >> 8, sn & 0xFF]) + g
+            yield len(CLASSES) - 1, {"k": "d", "cls": "damaged", "src": 0, "raw": raw.hex()}
+
+
 def drv_exhaustive(ctx: Ctx, sub: SubCheck):
     depth = ctx.pick(5, 6)
     probe_depth = ctx.pick(2, 3)  # truncation probes after every class sequence up to this length
@@ -603,6 +650,13 @@ def drv_exhaustive(ctx: Ctx, sub: SubCheck):
                 seq.pop()
                 ops.pop()
                 r.restore(s)
+            for ci, probe in collision_probes(len(seq), strict_only=ctx.quick):  # quick: the bounded-only ones after <= 1 datagram only
+                s = r.snapshot()
+                ok = visit(ci, probe)
+                t.case(sub.name, nontrivial=ok, cls="collision_probe" if ok else "failing")
+                seq.pop()
+                ops.pop()
+                r.restore(s)
 
         def rec():
             L = len(seq)
@@ -645,6 +699,9 @@ def drv_exhaustive(ctx: Ctx, sub: SubCheck):
         for probe in prefix_probes(len(pre)):
             ctx.run_case(sub.name, oracle_history, {"ops": pre + [probe]})
             ctx.tally.case(sub.name, cls="prefix_probe")
+        for _, probe in collision_probes(len(pre)):
+            ctx.run_case(sub.name, oracle_history, {"ops": pre + [probe]})
+            ctx.tally.case(sub.name, cls="collision_probe", nontrivial=True)
     # directed: own S/N counter at the 16-bit boundary (the alphabet above never gets there)
     for sn0 in (65533, 65534, 65535):
         for kind in ("rrs", "hstrp"):
@@ -656,7 +713,9 @@ def drv_exhaustive(ctx: Ctx, sub: SubCheck):
     ctx.tally.notes.append(
         f"{sub.name}: all class sequences of length <= {depth} over the 12-class alphabet with position-dependent concrete fields "
         f"(the fields themselves are sampled by random_histories); a failing prefix is reported once and its extensions are not explored; "
-        f"after every class sequence of length <= {probe_depth} every proper prefix of each of the 12 class datagrams is delivered as a probe"
+        f"after every class sequence of length <= {probe_depth} every proper prefix of each of the 12 class datagrams is delivered as a probe, and "
+        f"so are 'collision' datagrams whose free octets (option data, radio address, text, payload, option area) are the header / TLV / complete "
+        f"datagram octets of every other class (well-formed ones judged strictly, the others by upper bounds)"
     )
 
 
@@ -763,7 +822,7 @@ def drv_random(ctx: Ctx, sub: SubCheck):
     M = make_machine("HSTRPHandlerMachine", Runner, _strategies(), initial_ops=_initial_ops())
 
     def work(shard, t: Tally):
-        ctx.state_machine(sub.name, M, max_examples=ctx.pick(40, 100), step_count=ctx.pick(60, 200), tally=t, shard=shard)
+        ctx.state_machine(sub.name, M, max_examples=ctx.pick(30, 100), step_count=ctx.pick(60, 200), tally=t, shard=shard)
 
     ctx.shards(work, list(range(16)))
 
